@@ -9,7 +9,7 @@ CLAIMED = {
     "C09": ("model_checking",
             "explicit-state BFS to fixpoint over the real Interpolation / Interpolation_2D objects (state = all fields), every letter applied in every reachable state, oracle = fresh object",
             "Every reachable (cached index, correlation flag, prefactor) state of the compiled object is visited and every operation of a finite query alphabet is executed in every one of them and compared with the same call on a fresh object (bitwise off the knots, rounding-level at knots). Because the search closes, the result covers call histories of unbounded length over the alphabet, which no finite test list can.",
-            "Alphabet: knots, their nextafter neighbours, quarter points, domain ends and extrapolation-zone points of tables N<=40 (quick) / N<=2000 (thorough) in three spacings; prefactors {1,2,-1,-2}. Arguments outside the alphabet are not covered. State fields are set directly (harness TU compiled with -fno-access-control); reachability of every visited state through the public API is shown by replaying witness paths.",
+            "Alphabet: knots, their nextafter neighbours, quarter points, domain ends and extrapolation-zone points of tables N<=40 plus one of 1100 points (quick) / N<=2000 (thorough) in three spacings; prefactors {1,2,-1,-2}. Arguments outside the alphabet are not covered. State fields are set directly (harness TU compiled with -fno-access-control); reachability of every visited state through the public API is shown by replaying witness paths.",
             "§3 C09"),
 }
 
@@ -37,12 +37,12 @@ CLAIMED.update({
 CLAIMED.update({
     "C03": ("model_checking",
             "complete products (4096 quintic coefficient vectors x intervals x epsilon x depth; estimator-regular families admitted by a closed-form filter) plus deviation-bounded stateless DFS in which the harness answers the integrand, compared on every execution with a textbook adaptive-Simpson recursion on the same answers",
-            "Exactness on quintics is decided on every member of a 4^6 coefficient product on 9 intervals (both orientations, width 1e-6..1e3, equal limits) x 5 epsilons x 5-7 depths against a binary128 antiderivative; the 4*epsilon error clause on every admitted member of the exp/cosh/inverse-power/power families; the structural clauses (swap = bitwise negation, epsilon sign, abscissae inside the closed interval, at most 2^(depth+2)+1 evaluations) on all of those and on every execution in which the harness itself answers the integrand with all placements of <=3 (quick) / <=4 (thorough) non-zero answers among the first 17/33 queries. Special structures: polynomials vanishing on every subset of the first five Simpson abscissae, integrands that re-enter Integrate with other settings (compared with the same values from a table), refinement to the depth bound at one place on narrow intervals at non-dyadic offsets.",
+            "Exactness on quintics is decided on every member of a 4^6 coefficient product on 9 intervals (both orientations, width 1e-6..1e3, equal limits) x 5 epsilons x 5-7 depths against a binary128 antiderivative; the 4*epsilon error clause on every admitted member of the exp/cosh/inverse-power/power families; the structural clauses (swap = bitwise negation, epsilon sign, abscissae inside the closed interval, at most 2^(depth+2)+1 evaluations) on all of those and on every execution in which the harness itself answers the integrand with all placements of <=3 (quick) / <=4 (thorough) non-zero answers among the first 17/33 queries. Special structures: polynomials vanishing on every subset of the first five Simpson abscissae, integrands that re-enter Integrate with other settings (compared with the same values from a table), refinement to the depth bound at one place on narrow intervals at non-dyadic offsets. Integrands infinite at a limit (location and count clauses); call histories over 9 request letters (result, abscissae and count identical whatever preceded).",
             "Error clause skipped (and counted) where the recursion bottoms out; deviations limited to the stated window and alphabet {+-1, +-1e6, 1e-9}; default answer 0.",
             "§3 C03"),
     "C11": ("model_checking",
             "stateless exploration of environment answers: the harness plays the objective for Find_Minimum/Find_Maximum and Minimization::minimize (every answer sequence over 6 letters at the first 7 (quick) / 8 (thorough) evaluations, then a convex default bowl); complete products of unimodal 1D objectives and quadratic bowls d<=6",
-            "'Never worse than the start' and the consistency of the reported state (fmin, y, best-first simplex, nfunc) are statements about every objective; an execution is determined by the objective values it sees, so all answer sequences up to the depth bound are enumerated on the real code and the clauses are checked on each (Find_Maximum(-f) must issue identical queries and return identical bits). Convergence is decided on complete products objective x start x tolerance (1D) and dimension x condition x rotation x offset x scale x ftol (bowls), with the three overloads compared bitwise. Unequal, non-palindromic deltas: the first d+1 evaluations are the documented simplex and the result equals that of the simplex overload; a second minimize() on the same object equals a fresh object (value, fmin, nfunc).",
+            "'Never worse than the start' and the consistency of the reported state (fmin, y, best-first simplex, nfunc) are statements about every objective; an execution is determined by the objective values it sees, so all answer sequences up to the depth bound are enumerated on the real code and the clauses are checked on each (Find_Maximum(-f) must issue identical queries and return identical bits). Convergence is decided on complete products objective x start x tolerance (1D) and dimension x condition x rotation x offset x scale x ftol (bowls), with the three overloads compared bitwise. Unequal, non-palindromic deltas: the first d+1 evaluations are the documented simplex and the result equals that of the simplex overload; a second minimize() on the same object equals a fresh object (value, fmin, nfunc). Symmetric bowls from every half-integer lattice start (exact ties between vertex values) with optimum values 0, -2.5, -1000: no exit, descent, state consistency; on every normal return of every Nelder-Mead part the vertex values satisfy the documented fractional tolerance.",
             "An execution that ends in the library's iteration-cap exit under an adversarial objective is permitted and counted (link-time interposition of exit()); on unimodal objectives and convex bowls it is a violation. Bowl distance bound sqrt(20*ftol*(|f*|+1e-10)/lambda_min) as fixed in DESIGN.md; eight bowl inputs that exceed it are recorded in KNOWN_FINDINGS.txt.",
             "§3 C11"),
 })
@@ -58,12 +58,12 @@ CLAIMED.update({
 CLAIMED.update({
     "C05": ("exploration",
             "bounded-exhaustive enumeration of integer matrices (all 2x2 over {-2..2}, all 3x3 over {-1,0,1} quick / {-1,0,1,2} thorough, all signed permutation matrices n<=5 / n<=7, P*L*U with every permutation) and structured families, against an exact Bareiss determinant (__int128) and a binary128 complete-pivoting inverse",
-            "Determinant must equal the exact integer determinant bit for bit on every enumerated integer matrix (transpose invariance, row-swap sign, multiplicativity, triangular product checked directly), Invertible must agree with it, Inverse must return for every invertible matrix whatever the position of its zero or tiny entries and agree with the exact inverse within 16*n*kappa*u (X*M and M*X against I with the stated powers of kappa), and must end the process for every singular or non-square one. Complete products make 'whatever the position of the zeros' a statement about all positions rather than one sample. Object histories (Determinant/Invertible/Inverse, then +=, -=, element or row writes, assignment, then the queries again) must answer like a fresh matrix with the same entries; singular integer matrices include non-trivial row/column combinations up to n=7; orthogonal matrices are perturbed by 1e-13..1e-6.",
+            "Determinant must equal the exact integer determinant bit for bit on every enumerated integer matrix (transpose invariance, row-swap sign, multiplicativity, triangular product checked directly), Invertible must agree with it, Inverse must return for every invertible matrix whatever the position of its zero or tiny entries and agree with the exact inverse within 16*n*kappa*u (X*M and M*X against I with the stated powers of kappa), and must end the process for every singular or non-square one. Complete products make 'whatever the position of the zeros' a statement about all positions rather than one sample. Object histories (Determinant/Invertible/Inverse, then +=, -=, element or row writes, assignment, then the queries again) must answer like a fresh matrix with the same entries; singular integer matrices include non-trivial row/column combinations up to n=7; orthogonal matrices are perturbed by 1e-13..1e-6. The matrix returned by Inverse() must itself answer like a fresh matrix with the same entries.",
             "Sizes above 3 are covered by structured families (permutations, PLU, tiny pivots in every diagonal position, triangular/diagonal/symmetric, rank-deficient, graded scalings to kappa 1e8), not by complete products. Rejection is observed through interposed exit(); the diagnostic text is checked in C10.",
             "§3 C05"),
     "C15": ("exploration",
             "bounded-exhaustive enumeration of structured families n<=5 (quick) / n<=7 (thorough): QR on integer/graded/all non-singular 3x3 matrices; symmetric M = Q diag(lambda) Q^T for every member of a finite orthogonal family x eigenvalue ratio patterns x sign patterns, against long-double cyclic Jacobi; every Eigensystem/Eigenvectors call in its own child process with a 2 s limit",
-            "QR: Q^T Q = I and QR = M within 16 n^2 u, R exactly zero below the diagonal, on every enumerated non-singular matrix. Eigenvalues: spectrum equals the Jacobi reference as a multiset, sums to the trace, multiplies to the determinant. Eigensystem/Eigenvectors: must terminate (time-bounded child), return n unit vectors, each an eigenpair within 1e-8*|M|, each reference eigenvalue represented once - including diagonal and block-diagonal matrices and eigenvectors with zero components, which is where the pinned code aborted or looped.",
+            "QR: Q^T Q = I and QR = M within 16 n^2 u, R exactly zero below the diagonal, on every enumerated non-singular matrix. Eigenvalues: spectrum equals the Jacobi reference as a multiset, sums to the trace, multiplies to the determinant. Eigensystem/Eigenvectors: must terminate (time-bounded child), return n unit vectors, each an eigenpair within 1e-8*|M|, each reference eigenvalue represented once - including diagonal and block-diagonal matrices and eigenvectors with zero components, which is where the pinned code aborted or looped. The argument matrix must come back bit-identical; Eigenvectors() must equal Eigensystem().second up to signs; call histories over QR/Inverse/Eigenvalues/Eigensystem letters on four matrices.",
             "Orthogonal family and ratio patterns are finite lists (signed permutations, Givens products with angles pi/6, pi/4, pi/3, 1, rotations in the planes (i,i+2) giving checkerboard matrices, Householder reflectors of integer vectors; ratios 0.1..0.8). Overall magnitudes 1, 40, 1e-7, 1e7 (thorough also 1e-30, 1e30, 3e-4); QR families include nearly triangular matrices with sub-diagonal parts of relative size 1e-6..1e-15.",
             "§3 C15"),
 })
@@ -132,7 +132,7 @@ CLAIMED.update({
 CLAIMED.update({
     "C14": ("model_checking",
             "exhaustive exploration of call histories with owned entropy: std::random_device::_M_getval() is interposed so every seed is a letter; every history of prior integrations up to depth 2 (quick) / 3 (thorough) over a 10-letter alphabet is run in a child process forked from a pristine parent, and each of 12 observed calls x seeds in its own grandchild; oracle = value bits and the hash of the complete argument stream of the same call in a fresh process",
-            "The integrators keep grids, counters and work arrays in function-local statics, so whether a call is affected by earlier ones is a property of the call sequence; all sequences up to the bound are executed (110 / 1110 histories, 2640 / 79920 observed calls) and compared bitwise with a fresh process, including an integrand that reads the whole vector it is handed and a needle integrand that drives Miser into its fall-back branch. In addition every method x dimension 1..6 x 4 regions (offset, anisotropic, width 1e-3, width 1e3) x budgets x 4 families x seeds runs in its own process: every argument vector has the right size and lies inside the hyper-rectangle, constants are integrated to rounding, smooth families within six plain-Monte-Carlo standard errors of the closed form; the 2D/3D front ends pass each coordinate within its own axis' range. Families include sharply peaked off-centre Gaussians (width 0.07 and 0.1 of the side).",
+            "The integrators keep grids, counters and work arrays in function-local statics, so whether a call is affected by earlier ones is a property of the call sequence; all sequences up to the bound are executed (110 / 1110 histories, 2640 / 79920 observed calls) and compared bitwise with a fresh process, including an integrand that reads the whole vector it is handed and a needle integrand that drives Miser into its fall-back branch. In addition every method x dimension 1..6 x 4 regions (offset, anisotropic, width 1e-3, width 1e3) x budgets x 4 families x seeds runs in its own process: every argument vector has the right size and lies inside the hyper-rectangle, constants are integrated to rounding, smooth families within six plain-Monte-Carlo standard errors of the closed form; the 2D/3D front ends pass each coordinate within its own axis' range. Families include sharply peaked off-centre Gaussians (width 0.07 and 0.1 of the side). The constant family takes the values 2.75, 0 and -1.5; the 2D/3D front ends are also called with the budget left at its default.",
             "History alphabet and depth are finite; seeds are the values returned by the interposed entropy source (1,2 quick; 1..6 thorough). Three (method, dimension, region) inputs where Vegas misses a constant because of its absolute TINY threshold are recorded in KNOWN_FINDINGS.txt.",
             "§3 C14"),
 })
@@ -140,7 +140,7 @@ CLAIMED.update({
 CLAIMED.update({
     "C18": ("model_checking",
             "the caller's generator is the environment: a real std::mt19937 is scripted (state loaded through operator>> with inverted tempering) so the uniforms each sampler sees are enumerated on complete grids; explicit enumeration of all interleavings of 10 sampler letters up to depth 3 (quick) / 4 (thorough) from two seeds, every transition compared with the same call made first in a pristine process that loads the serialised generator state",
-            "Reproducibility and purity are statements about every generator state and every sequence of sampler calls: all sequences up to the bound are executed and each further call must produce the same output and leave the same generator state as in a pristine process started from the serialised state (so no sampler keeps hidden state or consults another entropy source: random_device, rand, random and getrandom are interposed and must stay at zero). The laws are decided exactly instead of statistically: Sample_Uniform is affine in the scripted uniform bit for bit, Sample_Gauss hits the normal quantile within the Kolmogorov distance implied by Inv_Erf's 1e-4, inverse-transform samples satisfy cdf(x)=u, rejection sampling returns the first pair under the density on a full grid of first trials, Sample_Poisson follows Knuth's product rule on every uniform sequence over a 12-letter grid (15 letters for means below 0.1: mean/2, 1-mean/2, 1-mean/4 added) up to length 5/6 (and on two-level sequences for means 600..5000); targets with bounded support, plateaus and zero-density regions in every sampler from 8/32 seeds: twice from equal states (identical output and final state), no foreign entropy, inside the domain, never leaving the support once reached ; Gaussian tails on scripted uniforms down to 2^-53 and 0 (judged in z), inverse-transform sampling of non-linear CDFs on domains of width 2e-10, 3e-9 and 9e-14, the Metropolis kernel is compared rule by rule on a grid of (start, proposal, acceptance) uniforms, and all (sample, thinning, burn_in) triples of the stated grid return exactly `sample` states of the reference chain at iterations >= burn_in spaced by thinning.",
+            "Reproducibility and purity are statements about every generator state and every sequence of sampler calls: all sequences up to the bound are executed and each further call must produce the same output and leave the same generator state as in a pristine process started from the serialised state (so no sampler keeps hidden state or consults another entropy source: random_device, rand, random and getrandom are interposed and must stay at zero). The laws are decided exactly instead of statistically: Sample_Uniform is affine in the scripted uniform bit for bit, Sample_Gauss hits the normal quantile within the Kolmogorov distance implied by Inv_Erf's 1e-4, inverse-transform samples satisfy cdf(x)=u, rejection sampling returns the first pair under the density on a full grid of first trials (two envelopes: loose, and 0.4 % below the maximum of the density), Sample_Poisson follows Knuth's product rule on every uniform sequence over a 12-letter grid (15 letters for means below 0.1: mean/2, 1-mean/2, 1-mean/4 added) up to length 5/6 (and on two-level sequences for means 600..5000); targets with bounded support, plateaus and zero-density regions in every sampler from 8/32 seeds: twice from equal states (identical output and final state), no foreign entropy, inside the domain, never leaving the support once reached ; Gaussian tails on scripted uniforms down to 2^-53 and 0 (judged in z), inverse-transform sampling of non-linear CDFs on domains of width 2e-10, 3e-9 and 9e-14, the Metropolis kernel is compared rule by rule on a grid of (start, proposal, acceptance) uniforms, and all (sample, thinning, burn_in) triples of the stated grid return exactly `sample` states of the reference chain at iterations >= burn_in spaced by thinning.",
             "Scripted grids are finite (stratified u=(i+1/2)/m); a supplementary Kolmogorov-Smirnov test at 1e-9 on real streams (8 seeds) is included but is not what decides the property. Poisson sequences whose product ties with exp(-mean) within 1e-12 are skipped and counted.",
             "§3 C18"),
 })
